@@ -31,3 +31,22 @@ Theorem C17_refuted_repeat :
   In (0%nat, MSendOk 7) (mlog s) /\ alive s 2%nat = true /\ got s 0%nat = [7] /\ got s 2%nat = [7; 7] /\ mthr s 0%nat = MIdle /\ mthr s 1%nat = MIdle.
 Proof. vm_compute. intuition. Qed.
 Print Assumptions C17_refuted_repeat.
+
+(* What does hold (the positive core, for ANY number of concurrent creators / removers racing with sends and polls, every
+   schedule): whenever no creation / removal is between its change of the vacant queue and the end of its rebuild of
+   used_streams, the array holds exactly the live ids (the ids not in the vacant queue), ascending, then the sentinel - so a
+   fan-out that runs while no rebuild is in progress serves exactly the live listeners. streams_lock is a mutual exclusion. *)
+From RM Require Import Churn.
+Theorem C17_live_list_consistent :
+  forall N M, (0 < M)%nat -> forall mevs, Forall (fun e => stepped_ev e = true) mevs ->
+    let s := fold_left (mexec N M) mevs (minit M) in
+    (forall t, pending (mthr s t) = false /\ writing (mthr s t) = false) ->
+    forall j, (j < M)%nat -> usedarr (mx s) j = nth j (used_list M (vacant s)) MAXID.
+Proof. intros N M HM mevs H s Hq j Hj. exact (live_list_consistent N M HM mevs H Hq j Hj). Qed.
+Print Assumptions C17_live_list_consistent.
+
+(* non-vacuity: two listeners created concurrently by two threads (their steps interleaved), then the array is [0; 1; MAX; MAX] *)
+Example C17_live_list_nonvacuous :
+  let s := fst (mrun 8 idz idz 4 (minit 4) (fun t => nth t [[MoCreateS]; [MoCreateS]] []) (concat (repeat [0; 1; 1; 0]%nat 12))) in
+  (map (usedarr (mx s)) [0; 1; 2; 3]%nat, vacant s, mthr s 0%nat, mthr s 1%nat) = ([0; 1; MAXID; MAXID], [2; 3]%nat, MIdle, MIdle).
+Proof. vm_compute. reflexivity. Qed.
